@@ -143,6 +143,7 @@ theorem handleReq_quiet (cfg : Cfg) (R : RespTab) (x : Conn) : Quiet (handleReq 
   · split <;> (intro c; simp)
   · exact replyPre_quiet _ _ _ _ _ _
   · exact quiet_nil
+  · exact replyPre_quiet _ _ _ _ _ _
   · split
     · exact runReply_quiet _ _ _ _
     · exact quiet_nil
